@@ -24,6 +24,40 @@ let hex l =
     List.iter (fun x -> Buffer.add_string b (Printf.sprintf "%02x" ((int_of_n x) land 255))) l;
     Buffer.contents b end
 
+(* ---- I/O model tokens -------------------------------------------------------------------- *)
+let name_of_string = function "S" -> Src | "D" -> Dst | "N" -> New | s -> failwith ("name " ^ s)
+let string_of_name = function Src -> "S" | Dst -> "D" | New -> "N"
+let outcome_of_char = function 'O' -> Ok | 'F' -> Fail | 'X' -> Exdev | c -> failwith "outcome"
+let char_of_outcome = function Ok -> "O" | Fail -> "F" | Exdev -> "X"
+let string_of_op = function
+  | Opendir -> "Opendir" | Stat n -> "Stat." ^ string_of_name n | Creat n -> "Creat." ^ string_of_name n
+  | Rename (a, b) -> "Rename." ^ string_of_name a ^ "." ^ string_of_name b
+  | Dup -> "Dup" | Fdopen -> "Fdopen"
+  | Write (n, v) -> "Write." ^ string_of_name n ^ "." ^ string_of_int (int_of_nat v)
+  | Flush (n, v) -> "Flush." ^ string_of_name n ^ "." ^ string_of_int (int_of_nat v)
+  | Fsync n -> "Fsync." ^ string_of_name n | Fclose n -> "Fclose." ^ string_of_name n
+  | Close n -> "Close." ^ string_of_name n | Unlink n -> "Unlink." ^ string_of_name n
+  | Utimens n -> "Utimens." ^ string_of_name n | OpenR n -> "OpenR." ^ string_of_name n
+let op_of_string s =
+  match String.split_on_char '.' s with
+  | ["Opendir"] -> Opendir | ["Dup"] -> Dup | ["Fdopen"] -> Fdopen
+  | ["Stat"; n] -> Stat (name_of_string n) | ["Creat"; n] -> Creat (name_of_string n)
+  | ["Rename"; a; b] -> Rename (name_of_string a, name_of_string b)
+  | ["Write"; n; v] -> Write (name_of_string n, nat_of_int (int_of_string v))
+  | ["Flush"; n; v] -> Flush (name_of_string n, nat_of_int (int_of_string v))
+  | ["Fsync"; n] -> Fsync (name_of_string n) | ["Fclose"; n] -> Fclose (name_of_string n)
+  | ["Close"; n] -> Close (name_of_string n) | ["Unlink"; n] -> Unlink (name_of_string n)
+  | ["Utimens"; n] -> Utimens (name_of_string n) | ["OpenR"; n] -> OpenR (name_of_string n)
+  | _ -> failwith ("op " ^ s)
+let action_of_string = function
+  | "move" -> AMove false | "moves" -> AMove true | "movex" -> AMoveX false | "movexs" -> AMoveX true
+  | "write" -> AWrite | "discard" -> ADiscard | s -> failwith ("action " ^ s)
+let show_file w n =
+  match file_at w n with
+  | None -> "a"
+  | Some f -> (match f.f_data with Empty -> "e" | Partial -> "p" | Complete v -> "c" ^ string_of_int (int_of_nat v))
+              ^ (if f.f_durable then "d" else "") ^ "m" ^ string_of_int (int_of_nat f.f_mtime)
+
 let handle cmd args =
   match cmd, args with
   | "b64", [s] -> (match base64_decode (unhex s) with
@@ -57,6 +91,21 @@ let handle cmd args =
                (n_of_int (int_of_string count)) (unhex host) (unhex flags) (nat_of_int 256) O with
        | GenOk (n, t) -> "S" ^ hex n ^ " " ^ string_of_int (int_of_nat t)
        | GenTooLong -> "TOOLONG" | GenFuel -> "FUEL")
+  | "io", [a; ver; outs] ->
+      let outs = if outs = "-" then [] else List.init (String.length outs) (fun i -> outcome_of_char outs.[i]) in
+      let r = replay_action (action_of_string a) (nat_of_int (int_of_string ver)) outs in
+      String.concat "," (List.map (fun (o, r) -> string_of_op o ^ "=" ^ char_of_outcome r) r.r_trace)
+      ^ " " ^ string_of_int (int_of_nat r.r_status)
+      ^ " S:" ^ show_file r.r_world Src ^ " D:" ^ show_file r.r_world Dst ^ " N:" ^ show_file r.r_world New
+      ^ (if exactly_once r.r_world then " once" else " notonce")
+  | "crash", [ver; tr] ->
+      let tr = if tr = "-" then [] else List.map (fun t ->
+          match String.split_on_char '=' t with
+          | [o; r] -> (op_of_string o, outcome_of_char r.[0])
+          | _ -> failwith "token") (String.split_on_char ',' tr) in
+      (match crash_violation tr (nat_of_int (int_of_string ver)) with
+       | None -> "OK"
+       | Some (j, k) -> "BAD " ^ string_of_int (int_of_nat j) ^ " " ^ string_of_int (int_of_nat k))
   | "msg", file :: _name :: ops ->
       (match parse_message (unhex file) with
        | None -> "FUEL"
